@@ -121,6 +121,28 @@ func suiteConvertPlain(R *runner, r *rng) {
 							ops[k].mergeWith, ops[k].mergeBytes = mc, []byte(md)
 						}
 					}
+					// the property's proviso: non-negative times (a writer's output for negative times is garbage that the models
+					// do not all reproduce) - decided with the operations' specifications on the source cues
+					if s0, err := src.read(doc); err == nil {
+						var merged [][]plainCue
+						for _, op := range ops {
+							if op.name == "merge" {
+								if m, e := astisub.ReadFromSRT(bytes.NewReader(op.mergeBytes)); e == nil {
+									merged = append(merged, rawPlainOf(m))
+								}
+							}
+						}
+						neg := false
+						for _, w := range applyOpsSpecRaw(rawPlainOf(s0), ops, merged) {
+							if w.Start < 0 || w.End < 0 {
+								neg = true
+							}
+						}
+						if neg {
+							R.count("plainops.skipped.negative_times")
+							continue
+						}
+					}
 					e := (&enc{}).n(src.code).n(dst.code).bytes(doc)
 					encConvOps(e, ops)
 					o2 := &obs{Suite: "convplainops", Group: "plainops." + src.name + "->" + dst.name, Input: e.String(), NT: true,
